@@ -900,6 +900,12 @@ class CSSVariable(CSSFunction):
         # store: name of variable
         store = {'ident': None, 'fallback': None}
         ok, seq, store, unused = ProdParser().parse(cssText, 'CSSVariable', prods)
+        if ok and store.get('ident') is None:
+            # e.g. end of input right after ``var(``
+            ok = False
+            self._log.error(
+                'CSSVariable: No variable name found: %s' % self._valuestr(cssText)
+            )
         self.wellformed = ok
 
         if ok:
